@@ -338,7 +338,13 @@ func (e *FieldAccessExpr) Check(ctx *CheckCtx) error {
 		if leftIsFAE {
 			// Support cascade field access such as:
 			// json(value)['x']['y']
-			return nil
+			// (the index is a text or an integer literal here too: nothing
+			// else is evaluated, and nothing else is checked)
+			switch e.FieldName.(type) {
+			case *StringExpr, *NumberExpr:
+				return nil
+			}
+			return NewSyntaxError(e.FieldName.GetPos(), "Invalid field name")
 		}
 		return NewSyntaxError(e.Left.GetPos(), "Field access expression left require JSON or List type")
 	}
